@@ -41,6 +41,10 @@ def topo_for(has_ramp, has_branch, dest="D1", origin="O1", ideal_base=False):
     return Topo("c19", nodes, links, origins, dests, delta=True)
 
 
+# operations that occur only among the first two calls of a history (keeps the enumeration affordable)
+OPS_PREFIX_ONLY = ["step_elements_fail_last"]
+
+
 class World:
     def __init__(self, symtype, seed):
         import sym_metanet as M
@@ -108,6 +112,35 @@ class World:
                     self.status[e] = "init" if self.has_vars(e) else self.status[e]
             self.lastT = T1
             self.in_step = set(self.present)
+            return "ok", None
+        if op == "step_elements_fail_last":
+            # what Network.step does, call by call on the elements -- but the LAST link is stepped with tau forgotten and raises:
+            # every element is (re-)initialised, every origin and every other link gets its next state, the last link does not
+            kw = self.kw(T1)
+            for el in self.net.elements:
+                el.init_vars(engine=self.engine)
+            for o in self.net.origins:
+                o.step(net=self.net, engine=self.engine, **kw)
+            ls = [l for _, _, l in self.net.links]
+            for l in ls[:-1]:
+                l.step(net=self.net, engine=self.engine, **kw)
+            kw.pop("tau")
+            try:
+                ls[-1].step(net=self.net, engine=self.engine, **kw)
+                return "skip", None
+            except TypeError:
+                pass
+            last = next(k for k, v in self.links.items() if v is ls[-1])
+            for e in self.present:
+                if e == last:
+                    self.status[e] = "stale" if self.status[e] in ("current", "stale") else "init"
+                elif e[0] in "OL":
+                    self.status[e] = "current"
+                else:
+                    self.status[e] = "init" if self.has_vars(e) else self.status[e]
+            self.lastT = T1
+            self.in_step = set(self.present)
+            self.topo_at_step = topo_for(self.has_ramp, self.has_branch, self.dest_name, self.origin_name, self.ideal_base)
             return "ok", None
         if op.startswith("step"):
             T = T1 if "T1" in op else T2
@@ -303,7 +336,7 @@ def main():
     length = 5 if args.thorough else 4
     items = []
     for st in ("SX", "MX"):
-        for p in itertools.product(OPS, repeat=2):
+        for p in itertools.product(OPS + OPS_PREFIX_ONLY, repeat=2):
             items.append((st, p, length, args.seed))
         items.append((st, (), 1, args.seed))
         for p in OPS:
@@ -315,7 +348,7 @@ def main():
         tot, levels, samples, st, len(items),
         "trace = one real history (sequence of construction / initialisation / step / compile calls, every sequence up to the length bound that ends in a compile, SX and MX); "
         "every compile is compared with the abstract model's verdict; every level-0 function returned is translated and proven equal to the METANET successor of the current symbols",
-        {"bounds": {"history_length": length, "alphabet": OPS, "symbol_types": ["SX", "MX"]},
+        {"bounds": {"history_length": length, "alphabet": OPS, "additional_operations_in_the_first_two_positions": OPS_PREFIX_ONLY, "symbol_types": ["SX", "MX"]},
          "histories": extra.get("histories", 0), "compiles_observed": extra.get("compiles", 0), "functions_returned": extra.get("functions_returned", 0),
          "runtime_errors_observed": extra.get("runtime_errors", 0),
          "functions_encoded": ["Engine.to_function (initialisation / stepping scan, has_free)", "Network.step", "element init_vars", "Network.add_origin / add_path"]})
